@@ -244,7 +244,7 @@ func scenarioTunnel(c *vrun.Ctx) {
 			connectionEnded := false // on the pipelined tunnel: an exchange broke off, what was written behind it is void
 			for i := range seq {
 				one, per, plain := results["one-tunnel"][i], results["tunnel-per-request"][i], results["plain"][i]
-				if strings.HasPrefix(one, "ERR:") && seq[i].name == "M-origin-aborts-sized-body" && one == per && per == plain && strings.Contains(one, "unexpected EOF") {
+				if seq[i].name == "M-origin-aborts-sized-body" && strings.HasPrefix(one, "ERR:") && strings.HasPrefix(per, "ERR:") && strings.HasPrefix(plain, "ERR:") && !strings.Contains(one+per+plain, "i/o timeout") {
 					// the origin broke off: on every transport the client is told so by the end of the connection
 					connectionEnded = true
 					continue
